@@ -1599,3 +1599,552 @@ Section HierLawful.
     - unfold hier_rest. cbn [h_valid]. rewrite Fg, (merge_view_nil _ Hm). split; reflexivity.
   Qed.
 End HierLawful.
+
+(* ------------------------------------------------------------------------------------ *)
+(* Part 5: consuming a lawful iterator                                                    *)
+(* ------------------------------------------------------------------------------------ *)
+
+(* what a consumer that drops deletion markers keeps *)
+Definition live (l : list kv) : list (bytes * bytes) :=
+  flat_map (fun x => match snd x with Some v => [(fst x, v)] | None => [] end) l.
+
+(* limit 0 = no limit; count = entries already sent *)
+Definition take_lim (limit count : N) (l : list (bytes * bytes)) : list (bytes * bytes) :=
+  if 0 <? limit then firstn (N.to_nat (limit - count)) l else l.
+
+Section Consume.
+  Context {S : Type} (I : Iter S) (ok : S -> Prop) (content rest : S -> list kv).
+  Context (L : Lawful I ok content rest).
+
+  Lemma head_facts : forall s x r, ok s -> rest s = x :: r ->
+    i_valid I s = true /\ i_key I s = fst x /\ i_value I s = snd x /\ i_tomb I s = is_none (snd x).
+  Proof.
+    intros s x r H R.
+    assert (V : i_valid I s = true) by (rewrite (L_valid _ _ _ _ L s H), R; reflexivity).
+    rewrite (L_key _ _ _ _ L s H V), (L_value _ _ _ _ L s H V), (L_tomb _ _ _ _ L s H V), R.
+    destruct x; auto.
+  Qed.
+
+  Lemma collect_loop_spec : forall fuel s, ok s -> (length (rest s) < fuel)%nat ->
+    collect_loop I fuel s = rest s.
+  Proof.
+    induction fuel as [|f IH]; intros s H Hf; [lia|]. cbn [collect_loop].
+    destruct (rest s) as [|x r] eqn:R.
+    - rewrite (L_valid _ _ _ _ L s H), R. reflexivity.
+    - destruct (head_facts s x r H R) as (V & K & W & _). rewrite V, K, W.
+      destruct (L_next _ _ _ _ L s H V) as (N1 & _ & N3 & _). rewrite R in N3. cbn [tl] in N3.
+      rewrite (IH _ N1) by (rewrite N3; cbn [length] in Hf; lia). rewrite N3. destruct x; reflexivity.
+  Qed.
+
+  (* everything the iterator surfaces, deletion markers included *)
+  Theorem collect_spec : forall s, ok s -> collect I s = content s.
+  Proof.
+    intros s H. unfold collect. destruct (L_first _ _ _ _ L s H) as (F1 & F2 & F3).
+    rewrite collect_loop_spec; [rewrite F3; reflexivity|exact F1|].
+    pose proof (rest_length _ _ _ _ _ L _ F1). exact H0.
+  Qed.
+
+  Lemma scan_loop_spec : forall fuel limit count s, ok s -> (length (rest s) < fuel)%nat ->
+    scan_loop I fuel limit count s = take_lim limit count (live (rest s)).
+  Proof.
+    induction fuel as [|f IH]; intros limit count s H Hf; [lia|]. cbn [scan_loop].
+    destruct (rest s) as [|x r] eqn:R.
+    - rewrite (L_valid _ _ _ _ L s H), R. cbn [nonempty live flat_map]. unfold take_lim.
+      destruct (0 <? limit); [rewrite firstn_nil|]; reflexivity.
+    - destruct (head_facts s x r H R) as (V & K & W & T). rewrite V, K, W, T.
+      destruct (L_next _ _ _ _ L s H V) as (N1 & _ & N3 & _). rewrite R in N3. cbn [tl] in N3.
+      assert (Hf' : (length (rest (fst (i_next I s))) < f)%nat) by (rewrite N3; cbn [length] in Hf; lia).
+      unfold take_lim. destruct (0 <? limit) eqn:Lim; cbn [andb].
+      + destruct (limit <=? count) eqn:Cmp.
+        * apply N.leb_le in Cmp. replace (limit - count) with 0 by lia. reflexivity.
+        * apply N.leb_gt in Cmp. cbn [live flat_map]. destruct (snd x) as [v|]; cbn [is_none app].
+          -- rewrite (IH _ _ _ N1 Hf'), N3. unfold take_lim. rewrite Lim.
+             replace (N.to_nat (limit - count)) with (Datatypes.S (N.to_nat (limit - (count + 1)))) by lia.
+             reflexivity.
+          -- rewrite (IH _ _ _ N1 Hf'), N3. unfold take_lim. rewrite Lim. reflexivity.
+      + cbn [live flat_map]. destruct (snd x) as [v|]; cbn [is_none app].
+        * rewrite (IH _ _ _ N1 Hf'), N3. unfold take_lim. rewrite Lim. reflexivity.
+        * rewrite (IH _ _ _ N1 Hf'), N3. unfold take_lim. rewrite Lim. reflexivity.
+  Qed.
+
+  (* service.Scan: the live entries of the content, the first `limit` of them *)
+  Theorem scan_spec : forall limit s, ok s -> scan I limit s = take_lim limit 0 (live (content s)).
+  Proof.
+    intros limit s H. unfold scan. destruct (L_first _ _ _ _ L s H) as (F1 & F2 & F3).
+    rewrite scan_loop_spec; [rewrite F3; reflexivity|exact F1|].
+    exact (rest_length _ _ _ _ _ L _ F1).
+  Qed.
+End Consume.
+
+(* ------------------------------------------------------------------------------------ *)
+(* Part 4a: the bounded iterator over a lawful iterator with one entry per key             *)
+(* ------------------------------------------------------------------------------------ *)
+
+Fixpoint take_hi (hi : option bytes) (l : list kv) : list kv :=
+  match l with
+  | [] => []
+  | x :: r => if in_hi hi (fst x) then x :: take_hi hi r else []
+  end.
+
+Definition drop_lo (lo : option bytes) (l : list kv) : list kv :=
+  match lo with Some a => from_ge a l | None => l end.
+
+(* the entries with start <= key < end *)
+Definition in_bounds (lo hi : option bytes) (l : list kv) : list kv := take_hi hi (drop_lo lo l).
+
+Lemma in_hi_mono : forall hi a b, blt b a = false -> in_hi hi b = true -> in_hi hi a = true.
+Proof.
+  intros [e|] a b H; cbn [in_hi]; [|reflexivity]. intros B. eapply le_lt_trans; eauto.
+Qed.
+
+Lemma in_lo_mono : forall lo a b, blt b a = false -> in_lo lo a = true -> in_lo lo b = true.
+Proof.
+  intros [e|] a b H; cbn [in_lo]; [|reflexivity]. intros B.
+  apply negb_true_iff in B. apply negb_true_iff. eapply le_trans; eauto.
+Qed.
+
+Lemma take_hi_in : forall hi l x, ksorted l ->
+  (In x (take_hi hi l) <-> In x l /\ in_hi hi (fst x) = true).
+Proof.
+  intros hi l x. induction l as [|y r IH]; intros H; cbn [take_hi]; [split; [intros []|intros [[] _]]|].
+  destruct (in_hi hi (fst y)) eqn:B.
+  - cbn [In]. rewrite IH by (eapply ksorted_tl; eauto). split.
+    + intros [<-|[Hx Hb]]; [split; [left; reflexivity|exact B]|split; [right; exact Hx|exact Hb]].
+    + intros [[<-|Hx] Hb]; [left; reflexivity|right; split; assumption].
+  - split; [intros []|]. intros [[<-|Hx] Hb]; [congruence|].
+    pose proof (ksorted_hd _ _ _ H Hx) as Le. rewrite (in_hi_mono hi _ _ Le Hb) in B. discriminate.
+Qed.
+
+Lemma drop_lo_in : forall lo l x, ksorted l ->
+  (In x (drop_lo lo l) <-> In x l /\ in_lo lo (fst x) = true).
+Proof.
+  intros [a|] l x H; cbn [drop_lo in_lo]; [|tauto].
+  rewrite from_ge_in by exact H. rewrite negb_true_iff. tauto.
+Qed.
+
+Lemma take_hi_kstrict : forall hi l, kstrict l -> kstrict (take_hi hi l).
+Proof.
+  intros hi l. induction l as [|x r IH]; intros H; cbn [take_hi]; [constructor|].
+  destruct (in_hi hi (fst x)); [|constructor]. inversion H as [|? ? Hs Hf]; subst.
+  constructor; [apply IH; exact Hs|]. rewrite Forall_forall in *. intros y Hy.
+  apply Hf. apply take_hi_in in Hy; [tauto|apply kstrict_ksorted; exact Hs].
+Qed.
+
+Lemma drop_lo_kstrict : forall lo l, kstrict l -> kstrict (drop_lo lo l).
+Proof. intros [a|] l H; cbn [drop_lo]; [apply from_ge_kstrict|]; exact H. Qed.
+
+Lemma in_bounds_kstrict : forall lo hi l, kstrict l -> kstrict (in_bounds lo hi l).
+Proof. intros. apply take_hi_kstrict. apply drop_lo_kstrict. assumption. Qed.
+
+Lemma in_bounds_in : forall lo hi l x, kstrict l ->
+  (In x (in_bounds lo hi l) <-> In x l /\ in_lo lo (fst x) = true /\ in_hi hi (fst x) = true).
+Proof.
+  intros lo hi l x H. unfold in_bounds.
+  rewrite take_hi_in by (apply kstrict_ksorted; apply drop_lo_kstrict; exact H).
+  rewrite drop_lo_in by (apply kstrict_ksorted; exact H). tauto.
+Qed.
+
+Lemma kstrict_key_inj : forall l x y, kstrict l -> In x l -> In y l -> fst x = fst y -> x = y.
+Proof.
+  induction l as [|z l IH]; intros x y H Hx Hy E; [destruct Hx|].
+  inversion H as [|? ? Hs Hf]; subst. rewrite Forall_forall in Hf.
+  destruct Hx as [<-|Hx]; destruct Hy as [<-|Hy]; [reflexivity| | |apply IH; assumption].
+  - specialize (Hf y Hy). unfold klt in Hf. rewrite E, blt_irrefl in Hf. discriminate.
+  - specialize (Hf x Hx). unfold klt in Hf. rewrite E, blt_irrefl in Hf. discriminate.
+Qed.
+
+Lemma from_ge_take_hi : forall t hi l, ksorted l -> from_ge t (take_hi hi l) = take_hi hi (from_ge t l).
+Proof.
+  intros t hi l. induction l as [|x r IH]; intros H; [reflexivity|]. cbn [take_hi from_ge].
+  destruct (blt (fst x) t) eqn:Bt.
+  - destruct (in_hi hi (fst x)) eqn:Bh.
+    + cbn [from_ge]. rewrite Bt. apply IH. eapply ksorted_tl; eauto.
+    + cbn [from_ge]. symmetry.
+      pose proof (from_ge_ksorted t r (ksorted_tl _ _ H)) as Hs.
+      destruct (from_ge t r) as [|y r'] eqn:G; [reflexivity|]. cbn [take_hi].
+      assert (Hy : In y r).
+      { destruct (from_ge_split t r) as (p & E & _). rewrite E, G. apply in_or_app. right. left. reflexivity. }
+      pose proof (ksorted_hd _ _ _ H Hy) as Le.
+      destruct (in_hi hi (fst y)) eqn:By; [|reflexivity].
+      rewrite (in_hi_mono hi _ _ Le By) in Bh. discriminate.
+  - cbn [take_hi]. destruct (in_hi hi (fst x)); [|reflexivity]. cbn [from_ge]. rewrite Bt. reflexivity.
+Qed.
+
+Lemma from_ge_id : forall t l, ksorted l -> (forall x, In x l -> blt (fst x) t = false) -> from_ge t l = l.
+Proof.
+  intros t l _ H. destruct l as [|x r]; [reflexivity|]. cbn [from_ge].
+  rewrite (H x (or_introl eq_refl)). reflexivity.
+Qed.
+
+Lemma from_ge_drop_lo : forall t lo l, ksorted l ->
+  from_ge t (drop_lo lo l) =
+  from_ge (match lo with Some a => if blt t a then a else t | None => t end) l.
+Proof.
+  intros t [a|] l H; cbn [drop_lo]; [|reflexivity].
+  destruct (blt t a) eqn:B.
+  - apply from_ge_id; [apply from_ge_ksorted; exact H|].
+    intros x Hx. apply from_ge_in in Hx; [|exact H]. destruct Hx as [_ Hx].
+    destruct (blt (fst x) t) eqn:C; [|reflexivity]. pose proof (blt_trans _ _ _ C B). congruence.
+  - apply from_ge_from_ge. exact B.
+Qed.
+
+Section BoundedLawful.
+  Context {S : Type} (I : Iter S) (ok : S -> Prop) (content rest : S -> list kv).
+  Context (L : Lawful I ok content rest).
+  Context (Hstrict : forall s, ok s -> kstrict (content s)).
+  Context (lo hi : option bytes).
+
+  Let BI := bounded_iter I lo hi.
+  Definition b_content (s : S) : list kv := in_bounds lo hi (content s).
+  Definition b_rest (s : S) : list kv := if b_check I lo hi s then take_hi hi (rest s) else [].
+
+  Lemma rest_strict : forall s, ok s -> kstrict (rest s).
+  Proof.
+    intros s H. destruct (L_suffix _ _ _ _ L s H) as (pre & E). pose proof (Hstrict s H) as K.
+    rewrite E in K. clear - K. induction pre as [|p pre IH]; [exact K|]. apply IH. inversion K; assumption.
+  Qed.
+
+  Lemma check_rest : forall s, ok s ->
+    b_check I lo hi s = match rest s with x :: _ => in_lo lo (fst x) && in_hi hi (fst x) | [] => false end.
+  Proof.
+    intros s H. unfold b_check. destruct (rest s) as [|x r] eqn:R.
+    - rewrite (L_valid _ _ _ _ L s H), R. reflexivity.
+    - destruct (head_facts I ok content rest L s x r H R) as (V & K & _). rewrite V, K. reflexivity.
+  Qed.
+
+  (* behind the start bound the bounded view of the position is just "up to the end bound" *)
+  Lemma b_rest_eq : forall s, ok s ->
+    (match rest s with x :: _ => in_lo lo (fst x) = true | [] => True end) ->
+    b_rest s = take_hi hi (rest s).
+  Proof.
+    intros s H Hlo. unfold b_rest. rewrite (check_rest s H).
+    destruct (rest s) as [|x r]; [reflexivity|]. rewrite Hlo. cbn [andb take_hi].
+    destruct (in_hi hi (fst x)); reflexivity.
+  Qed.
+
+  Lemma b_valid : forall s, ok s -> b_check I lo hi s = nonempty (b_rest s).
+  Proof.
+    intros s H. unfold b_rest. destruct (b_check I lo hi s) eqn:C; [|reflexivity].
+    rewrite (check_rest s H) in C. destruct (rest s) as [|x r]; [discriminate|].
+    apply andb_true_iff in C. destruct C as [_ C]. cbn [take_hi]. rewrite C. reflexivity.
+  Qed.
+
+  Lemma rest_in_content : forall s x, ok s -> In x (rest s) -> In x (content s).
+  Proof.
+    intros s x H Hx. destruct (L_suffix _ _ _ _ L s H) as (pre & E). rewrite E. apply in_or_app. right. exact Hx.
+  Qed.
+
+  (* the part of the bounded content at or behind t, in terms of the wrapped content *)
+  Lemma b_content_from_ge : forall t s, ok s ->
+    from_ge t (b_content s) =
+    take_hi hi (from_ge (match lo with Some a => if blt t a then a else t | None => t end) (content s)).
+  Proof.
+    intros t s H. unfold b_content, in_bounds. pose proof (kstrict_ksorted _ (Hstrict s H)) as Hs.
+    rewrite from_ge_take_hi by (destruct lo; cbn [drop_lo]; [apply from_ge_ksorted|]; exact Hs).
+    rewrite from_ge_drop_lo by exact Hs. reflexivity.
+  Qed.
+
+  (* a repositioned wrapped iterator at or behind the start bound *)
+  Lemma b_rest_after_seek : forall t' s', ok s' -> rest s' = from_ge t' (content s') ->
+    in_lo lo t' = true -> b_rest s' = take_hi hi (from_ge t' (content s')).
+  Proof.
+    intros t' s' H E Hlo. rewrite <- E. apply b_rest_eq; [exact H|].
+    destruct (rest s') as [|x r] eqn:R; [constructor|].
+    pose proof (from_ge_all t' (content s') (kstrict_ksorted _ (Hstrict s' H))) as F. rewrite <- E in F.
+    pose proof (Forall_inv F) as B. cbn beta in B. apply (in_lo_mono lo t' (fst x)); [|exact Hlo].
+    exact B.
+  Qed.
+
+
+  Lemma strict_suffix_from_ge : forall pre x r, kstrict (pre ++ x :: r) ->
+    from_ge (fst x) (pre ++ x :: r) = x :: r.
+  Proof.
+    induction pre as [|y pre IH]; intros x r H; cbn [app from_ge].
+    - rewrite blt_irrefl. reflexivity.
+    - inversion H as [|? ? Hs Hf]; subst. rewrite Forall_forall in Hf.
+      assert (B : klt y x) by (apply Hf; apply in_or_app; right; left; reflexivity).
+      unfold klt in B. rewrite B. apply IH. exact Hs.
+  Qed.
+
+  Lemma rest_from_ge : forall s x r, ok s -> rest s = x :: r -> from_ge (fst x) (content s) = rest s.
+  Proof.
+    intros s x r H R. destruct (L_suffix _ _ _ _ L s H) as (pre & E). pose proof (Hstrict s H) as K.
+    rewrite E, R in *. apply strict_suffix_from_ge. exact K.
+  Qed.
+
+  Lemma take_hi_length : forall h l, (length (take_hi h l) <= length l)%nat.
+  Proof.
+    intros h l. induction l as [|x r IH]; cbn [take_hi length]; [lia|].
+    destruct (in_hi h (fst x)); cbn [length]; lia.
+  Qed.
+
+  (* the keys the backward search of SeekToLast remembers *)
+  Fixpoint walk_keys (e : bytes) (l : list kv) (lastk : option bytes) : option bytes :=
+    match l with
+    | [] => lastk
+    | x :: r => if blt (fst x) e then walk_keys e r (Some (fst x)) else lastk
+    end.
+
+  Lemma b_walk_spec : forall fuel e s lastk, ok s -> (length (rest s) < fuel)%nat ->
+    ok (fst (b_walk I fuel e s lastk)) /\ content (fst (b_walk I fuel e s lastk)) = content s /\
+    rest (fst (b_walk I fuel e s lastk)) = from_ge e (rest s) /\
+    snd (b_walk I fuel e s lastk) = walk_keys e (rest s) lastk.
+  Proof.
+    induction fuel as [|f IH]; intros e s lastk H Hf; [lia|]. cbn [b_walk].
+    destruct (rest s) as [|x r] eqn:R.
+    - rewrite (L_valid _ _ _ _ L s H), R. cbn [nonempty andb fst snd from_ge walk_keys]. rewrite R. auto.
+    - destruct (head_facts I ok content rest L s x r H R) as (V & K & _). rewrite V, K. cbn [andb from_ge walk_keys].
+      destruct (blt (fst x) e) eqn:B; [|cbn [fst snd]; rewrite R; auto].
+      destruct (L_next _ _ _ _ L s H V) as (N1 & N2 & N3 & _). rewrite R in N3. cbn [tl] in N3.
+      destruct (IH e (fst (i_next I s)) (Some (fst x)) N1 ltac:(rewrite N3; cbn [length] in Hf; lia)) as (A1 & A2 & A3 & A4).
+      rewrite N3 in A3, A4. split; [exact A1|]. split; [congruence|]. split; assumption.
+  Qed.
+
+  Lemma walk_keys_spec : forall e l lastk k, ksorted l -> walk_keys e l lastk = Some k ->
+    (lastk = Some k /\ match l with x :: _ => blt (fst x) e = false | [] => True end) \/
+    (exists z, In z l /\ fst z = k /\ blt k e = true /\
+               forall y, In y l -> blt (fst y) e = true -> blt k (fst y) = false).
+  Proof.
+    intros e l. induction l as [|x r IH]; intros lastk k Hs E; cbn [walk_keys] in E.
+    - left. split; [exact E|constructor].
+    - destruct (blt (fst x) e) eqn:B; [|left; split; [exact E|reflexivity]].
+      right. destruct (IH (Some (fst x)) k (ksorted_tl _ _ Hs) E) as [[Q Hd]|(z & Hz & Ez & Bz & Hm)].
+      + injection Q as <-. exists x. split; [left; reflexivity|]. split; [reflexivity|]. split; [exact B|].
+        intros y [<-|Hy] By; [apply blt_irrefl|].
+        destruct r as [|w r']; [destruct Hy|].
+        assert (Lw : blt (fst y) (fst w) = false).
+        { destruct Hy as [<-|Hy]; [apply blt_irrefl|apply (ksorted_hd w r' y (ksorted_tl _ _ Hs) Hy)]. }
+        pose proof (le_lt_trans _ _ _ Lw By) as C. congruence.
+      + exists z. split; [right; exact Hz|]. split; [exact Ez|]. split; [exact Bz|].
+        intros y [<-|Hy] By; [|apply Hm; assumption].
+        rewrite <- Ez. apply (ksorted_hd _ _ _ Hs Hz).
+  Qed.
+
+  Lemma walk_keys_none : forall e l, walk_keys e l None = None ->
+    match l with x :: _ => blt (fst x) e = false | [] => True end.
+  Proof.
+    intros e [|x r] E; [constructor|]. cbn [walk_keys] in E.
+    destruct (blt (fst x) e) eqn:B; [|reflexivity]. exfalso.
+    clear B. revert E. generalize (fst x) as k. induction r as [|y r IH]; intros k E; cbn [walk_keys] in E; [discriminate|].
+    destruct (blt (fst y) e); [apply (IH _ E)|discriminate].
+  Qed.
+
+  (* a one-entry result: the last entry of the bounded content *)
+  Lemma last_run_single : forall B z, kstrict B -> In z B ->
+    (forall y, In y B -> blt (fst z) (fst y) = false) -> last_run B = [z].
+  Proof.
+    intros B z Hs Hz Hmax.
+    assert (E : from_gt (fst z) B = []) by (apply from_gt_nil_iff; rewrite Forall_forall; exact Hmax).
+    destruct (kstrict_ends B z Hs Hz E) as (pre & ->).
+    rewrite (last_run_strict _ Hs). apply last_suffix_snoc.
+  Qed.
+
+  Lemma single_ext : forall l z, kstrict l -> (forall x, In x l <-> x = z) -> l = [z].
+  Proof.
+    intros l z Hs H. apply kstrict_ext; [exact Hs|repeat constructor|].
+    intros x. rewrite H. cbn [In]. split; [intros ->; left; reflexivity|intros [->|[]]; reflexivity].
+  Qed.
+
+  Lemma in_lo_true_clamp : forall t, in_lo lo (match lo with Some a => if blt t a then a else t | None => t end) = true.
+  Proof.
+    intros t. destruct lo as [a|]; cbn [in_lo]; [|reflexivity].
+    destruct (blt t a) eqn:B; [rewrite blt_irrefl|rewrite B]; reflexivity.
+  Qed.
+
+  Theorem bounded_lawful : Lawful (bounded_iter I lo hi) ok b_content b_rest.
+  Proof.
+    constructor; cbn [bounded_iter i_first i_seek i_next i_last i_valid i_key i_value i_tomb i_fuel].
+    - (* sorted *) intros s H. apply kstrict_ksorted. apply in_bounds_kstrict. apply Hstrict. exact H.
+    - (* suffix *)
+      intros s H. unfold b_rest. destruct (b_check I lo hi s) eqn:C.
+      + rewrite (check_rest s H) in C. destruct (rest s) as [|x r] eqn:R; [discriminate|].
+        apply andb_true_iff in C. destruct C as [Clo Chi].
+        pose proof (b_content_from_ge (fst x) s H) as E.
+        assert (Cl : (match lo with Some a => if blt (fst x) a then a else fst x | None => fst x end) = fst x).
+        { destruct lo as [a|]; [|reflexivity]. cbn [in_lo] in Clo. apply negb_true_iff in Clo. rewrite Clo. reflexivity. }
+        rewrite Cl, (rest_from_ge s x r H R), R in E.
+        destruct (from_ge_split (fst x) (b_content s)) as (pre & P & _). exists pre. rewrite <- E. exact P.
+      + exists (b_content s). symmetry. apply app_nil_r.
+    - (* fuel *)
+      intros s H. pose proof (L_fuel _ _ _ _ L s H). unfold b_content, in_bounds.
+      pose proof (take_hi_length hi (drop_lo lo (content s))).
+      assert ((length (drop_lo lo (content s)) <= length (content s))%nat)
+        by (destruct lo; cbn [drop_lo]; [apply from_ge_length|lia]).
+      lia.
+    - (* valid *) apply b_valid.
+    - (* key *)
+      intros s H V. rewrite V. unfold b_rest. rewrite V. rewrite (check_rest s H) in V.
+      destruct (rest s) as [|x r] eqn:R; [discriminate|].
+      destruct (head_facts I ok content rest L s x r H R) as (_ & K & _).
+      apply andb_true_iff in V. destruct V as [_ V]. cbn [take_hi]. rewrite V. exact K.
+    - intros s H V. rewrite V. unfold b_rest. rewrite V. rewrite (check_rest s H) in V.
+      destruct (rest s) as [|x r] eqn:R; [discriminate|].
+      destruct (head_facts I ok content rest L s x r H R) as (_ & _ & W & _).
+      apply andb_true_iff in V. destruct V as [_ V]. cbn [take_hi]. rewrite V. exact W.
+    - intros s H V. rewrite V. unfold b_rest. rewrite V. rewrite (check_rest s H) in V.
+      destruct (rest s) as [|x r] eqn:R; [discriminate|].
+      destruct (head_facts I ok content rest L s x r H R) as (_ & _ & _ & T).
+      apply andb_true_iff in V. destruct V as [_ V]. cbn [take_hi andb]. rewrite V. exact T.
+    - (* SeekToFirst *)
+      intros s H. unfold b_first. destruct lo as [a|] eqn:Elo.
+      + destruct (L_seek _ _ _ _ L a s H) as (A1 & A2 & A3). split; [exact A1|].
+        split; [unfold b_content; rewrite A2; reflexivity|].
+        unfold b_content, in_bounds. rewrite Elo. cbn [drop_lo].
+        destruct A3 as [[E _]|(E1 & E2 & _)].
+        * rewrite <- A2. apply b_rest_after_seek; [exact A1|rewrite A2; exact E|].
+          rewrite Elo. cbn [in_lo]. rewrite blt_irrefl. reflexivity.
+        * rewrite E1. cbn [take_hi]. unfold b_rest. rewrite (check_rest _ A1), E2.
+          destruct (rest s) as [|x r] eqn:R; [reflexivity|].
+          assert (Hx : In x (content s)) by (apply rest_in_content; [exact H|rewrite R; left; reflexivity]).
+          apply from_ge_nil_iff in E1. rewrite Forall_forall in E1. specialize (E1 x Hx).
+          rewrite Elo. cbn [in_lo]. rewrite E1. reflexivity.
+      + destruct (L_first _ _ _ _ L s H) as (A1 & A2 & A3). split; [exact A1|].
+        split; [unfold b_content; rewrite A2; reflexivity|].
+        unfold b_content, in_bounds. rewrite Elo. cbn [drop_lo]. rewrite <- A3.
+        apply b_rest_eq; [exact A1|]. destruct (rest (i_first I s)); [constructor|].
+        rewrite Elo. reflexivity.
+    - (* Next *)
+      intros s H V. unfold b_next. rewrite V.
+      pose proof V as C. rewrite (check_rest s H) in C. destruct (rest s) as [|x r] eqn:R; [discriminate|].
+      apply andb_true_iff in C. destruct C as [Clo Chi].
+      destruct (head_facts I ok content rest L s x r H R) as (Vi & _).
+      destruct (L_next _ _ _ _ L s H Vi) as (N1 & N2 & N3 & N4). rewrite R in N3, N4. cbn [tl] in N3, N4.
+      destruct (i_next I s) as [s' ret]. cbn [fst snd] in *.
+      assert (Hr' : b_rest s' = take_hi hi r).
+      { rewrite <- N3. apply b_rest_eq; [exact N1|]. rewrite N3. destruct r as [|y r']; [constructor|].
+        pose proof (rest_sorted _ _ _ _ _ L s H) as Hs. rewrite R in Hs.
+        apply (in_lo_mono lo (fst x) (fst y)); [|exact Clo]. apply (ksorted_hd x (y :: r') y Hs). left. reflexivity. }
+      assert (Hold : tl (b_rest s) = take_hi hi r).
+      { unfold b_rest. rewrite V, R. cbn [take_hi]. rewrite Chi. reflexivity. }
+      assert (Goal : ok s' /\ b_content s' = b_content s /\ b_rest s' = tl (b_rest s) /\
+                     (if ret then b_check I lo hi s' else false) = nonempty (tl (b_rest s))).
+      { split; [exact N1|]. split; [unfold b_content; rewrite N2; reflexivity|]. split; [congruence|].
+        rewrite Hold, <- Hr'. destruct ret.
+        - apply b_valid. exact N1.
+        - rewrite Hr'. destruct r; [reflexivity|discriminate]. }
+      destruct ret; exact Goal.
+    - (* Seek *)
+      intros t s H. unfold b_seek, b_seek_gen.
+      set (t' := match lo with Some a => if blt t a then a else t | None => t end).
+      assert (Hlo' : in_lo lo t' = true) by apply in_lo_true_clamp.
+      pose proof (b_content_from_ge t s H) as Bc. fold t' in Bc.
+      (* a target at or behind the end bound finds nothing *)
+      assert (Miss : (match hi with Some e => negb (blt t' e) | None => false end) = true ->
+                     from_ge t (b_content s) = []).
+      { intros M. rewrite Bc. destruct hi as [e|]; [|discriminate]. apply negb_true_iff in M.
+        pose proof (from_ge_all t' (content s) (kstrict_ksorted _ (Hstrict s H))) as F.
+        destruct (from_ge t' (content s)) as [|y r]; [reflexivity|]. cbn [take_hi in_hi].
+        pose proof (Forall_inv F) as B. cbn beta in B.
+        destruct (blt (fst y) e) eqn:C; [|reflexivity].
+        pose proof (le_lt_trans _ _ _ B C). congruence. }
+      destruct (negb bounded_seek_miss_moves && match hi with Some e => negb (blt t' e) | None => false end) eqn:Early.
+      + apply andb_true_iff in Early. destruct Early as [_ M]. cbn [fst snd].
+        split; [exact H|]. split; [reflexivity|]. right. split; [apply Miss; exact M|split; reflexivity].
+      + destruct (L_seek _ _ _ _ L t' s H) as (A1 & A2 & A3).
+        destruct (i_seek I t' s) as [s' ret]. cbn [fst snd] in *.
+        assert (Hc : b_content s' = b_content s) by (unfold b_content; rewrite A2; reflexivity).
+        destruct A3 as [[E Er]|(E1 & E2 & Er)].
+        * assert (Hr' : b_rest s' = from_ge t (b_content s)).
+          { rewrite Bc, <- A2. apply b_rest_after_seek; [exact A1|rewrite A2; exact E|exact Hlo']. }
+          assert (Goal : ok s' /\ b_content s' = b_content s /\
+                         ((b_rest s' = from_ge t (b_content s) /\
+                           (if ret then b_check I lo hi s' else false) = nonempty (from_ge t (b_content s))) \/
+                          (from_ge t (b_content s) = [] /\ b_rest s' = b_rest s /\
+                           (if ret then b_check I lo hi s' else false) = false))).
+          { split; [exact A1|]. split; [exact Hc|]. left. split; [exact Hr'|]. rewrite <- Hr'.
+            destruct ret; [apply b_valid; exact A1|].
+            rewrite Hr', Bc. destruct (from_ge t' (content s)); [reflexivity|discriminate Er]. }
+          destruct ret; cbn [fst snd]; exact Goal.
+        * (* the wrapped iterator did not move: nothing is at or behind the target *)
+          assert (Hn : from_ge t (b_content s) = []) by (rewrite Bc, E1; reflexivity).
+          assert (Hr' : b_rest s' = b_rest s).
+          { unfold b_rest. rewrite (check_rest s' A1), (check_rest s H), E2. reflexivity. }
+          subst ret. cbn [fst snd]. split; [exact A1|]. split; [exact Hc|]. right. auto.
+    - (* SeekToLast *)
+      intros s H. unfold b_last. pose proof (Hstrict s H) as Ks.
+      pose proof (in_bounds_kstrict lo hi _ Ks) as Kb. fold (b_content s) in Kb.
+      destruct hi as [e|] eqn:Ehi.
+      + destruct (L_first _ _ _ _ L s H) as (F1 & F2 & F3).
+        pose proof (b_walk_spec (i_fuel I (i_first I s)) e (i_first I s) None F1
+                      (rest_length _ _ _ _ _ L _ F1)) as (W1 & W2 & W3 & W4).
+        destruct (b_walk I (i_fuel I (i_first I s)) e (i_first I s) None) as [s1 lastk]. cbn [fst snd] in *.
+        rewrite F3 in W3, W4. rewrite F2 in W2.
+        destruct lastk as [k|].
+        * symmetry in W4. destruct (walk_keys_spec e (content s) None k (kstrict_ksorted _ Ks) W4)
+            as [[Q _]|(z & Hz & Ez & Bz & Hm)]; [discriminate|].
+          destruct (L_seek _ _ _ _ L k s1 W1) as (A1 & A2 & A3). rewrite W2 in A2.
+          assert (Hz1 : In z (from_ge k (content s))).
+          { apply from_ge_in; [apply kstrict_ksorted; exact Ks|]. split; [exact Hz|]. rewrite Ez. apply blt_irrefl. }
+          assert (E : rest (fst (i_seek I k s1)) = from_ge k (content s)).
+          { destruct A3 as [[E _]|(E1 & _)]; [rewrite W2 in E; exact E|].
+            rewrite W2 in E1. rewrite E1 in Hz1. destruct Hz1. }
+          split; [exact A1|]. split; [unfold b_content; rewrite A2; reflexivity|].
+          (* the position shows exactly the entry of key k, if k is at or behind the start bound *)
+          assert (Hrest : forall x, In x (take_hi (Some e) (from_ge k (content s))) <-> x = z).
+          { intros x. rewrite take_hi_in by (apply from_ge_ksorted; apply kstrict_ksorted; exact Ks).
+            rewrite from_ge_in by (apply kstrict_ksorted; exact Ks). cbn [in_hi]. split.
+            - intros [[Hx Bx] Be]. apply (kstrict_key_inj _ _ _ Ks Hx Hz). rewrite Ez.
+              apply le_antisym; [exact Bx|apply Hm; assumption].
+            - intros ->. rewrite Ez. split; [split; [exact Hz|apply blt_irrefl]|exact Bz]. }
+          assert (Hsingle : take_hi (Some e) (from_ge k (content s)) = [z]).
+          { apply single_ext; [|exact Hrest]. apply take_hi_kstrict. apply from_ge_kstrict. exact Ks. }
+          unfold b_rest. rewrite (check_rest _ A1), E.
+          destruct (from_ge k (content s)) as [|x r] eqn:G; [destruct Hz1|].
+          assert (Ex : x = z).
+          { apply Hrest. rewrite Hsingle. cbn [take_hi in_hi] in Hsingle.
+            destruct (blt (fst x) e); [injection Hsingle as -> _; left; reflexivity|discriminate]. }
+          subst x. rewrite Ehi. cbn [in_hi]. rewrite Ez, Bz. rewrite Hsingle.
+          destruct (in_lo lo k) eqn:Clo; cbn [andb].
+          -- symmetry. apply last_run_single; [exact Kb| |].
+             ++ apply in_bounds_in; [exact Ks|]. rewrite Ez, Ehi. cbn [in_hi]. auto.
+             ++ intros y Hy. apply in_bounds_in in Hy; [|exact Ks]. destruct Hy as (Hy & _ & Hyh).
+                rewrite Ehi in Hyh. cbn [in_hi] in Hyh. rewrite Ez. apply Hm; assumption.
+          -- (* k is before the start bound: nothing is in range *)
+             assert (Hemp : b_content s = []).
+             { destruct (b_content s) as [|y r'] eqn:Bc; [reflexivity|exfalso].
+               assert (Hy : In y (b_content s)) by (rewrite Bc; left; reflexivity).
+               apply in_bounds_in in Hy; [|exact Ks]. destruct Hy as (Hy & Hyl & Hyh).
+               rewrite Ehi in Hyh. cbn [in_hi] in Hyh. pose proof (Hm y Hy Hyh) as Le.
+               rewrite (in_lo_mono lo _ _ Le Hyl) in Clo. discriminate. }
+             rewrite Hemp. reflexivity.
+        * (* no key below the end bound *)
+          symmetry in W4. pose proof (walk_keys_none e (content s) W4) as Hd.
+          split; [exact W1|]. split; [unfold b_content; rewrite W2; reflexivity|].
+          assert (Hemp : b_content s = []).
+          { destruct (b_content s) as [|y r'] eqn:Bc; [reflexivity|exfalso].
+            assert (Hy : In y (b_content s)) by (rewrite Bc; left; reflexivity).
+            apply in_bounds_in in Hy; [|exact Ks]. destruct Hy as (Hy & _ & Hyh). rewrite Ehi in Hyh. cbn [in_hi] in Hyh.
+            destruct (content s) as [|x r] eqn:Cs; [destruct Hy|].
+            assert (Le : blt (fst y) (fst x) = false).
+            { destruct Hy as [<-|Hy]; [apply blt_irrefl|].
+              apply (ksorted_hd x r y (kstrict_ksorted _ Ks) Hy). }
+            pose proof (le_lt_trans _ _ _ Le Hyh). congruence. }
+          rewrite Hemp. cbn [last_run last_suffix]. unfold b_rest. rewrite (check_rest _ W1), W3.
+          destruct (content s) as [|x r] eqn:Cs; [reflexivity|]. cbn [from_ge]. rewrite Hd.
+          rewrite Ehi. cbn [in_hi]. rewrite Hd. rewrite andb_false_r. reflexivity.
+      + (* no end bound: the last key of the wrapped iterator, if it is at or behind the start *)
+        destruct (L_last _ _ _ _ L s H) as (A1 & A2 & A3).
+        split; [exact A1|]. split; [unfold b_content; rewrite A2; reflexivity|].
+        unfold b_rest. rewrite (check_rest _ A1), A3.
+        destruct (content s) as [|c0 c'] eqn:Cs.
+        * unfold b_content. rewrite Cs. destruct lo; reflexivity.
+        * rewrite <- Cs in *.
+          destruct (last_run_spec (content s) (kstrict_ksorted _ Ks) ltac:(rewrite Cs; discriminate))
+            as (z & r & E & Hz & Hm & _).
+          rewrite (last_run_strict _ Ks) in E.
+          assert (Er : r = []).
+          { destruct (last_suffix_cases (content s)) as [[_ Q]|(p & x & _ & Q)]; rewrite Q in E; [discriminate|].
+            injection E as _ <-. reflexivity. }
+          subst r. rewrite (last_run_strict _ Ks), E. rewrite Ehi. cbn [in_hi take_hi]. rewrite andb_true_r.
+          destruct (in_lo lo (fst z)) eqn:Clo.
+          -- symmetry. apply last_run_single; [exact Kb| |].
+             ++ apply in_bounds_in; [exact Ks|]. rewrite Ehi. cbn [in_hi]. auto.
+             ++ intros y Hy. apply in_bounds_in in Hy; [|exact Ks]. apply Hm. tauto.
+          -- assert (Hemp : b_content s = []).
+             { destruct (b_content s) as [|y r'] eqn:Bc; [reflexivity|exfalso].
+               assert (Hy : In y (b_content s)) by (rewrite Bc; left; reflexivity).
+               apply in_bounds_in in Hy; [|exact Ks]. destruct Hy as (Hy & Hyl & _).
+               rewrite (in_lo_mono lo _ _ (Hm y Hy) Hyl) in Clo. discriminate. }
+             rewrite Hemp. reflexivity.
+  Qed.
+End BoundedLawful.
